@@ -1,28 +1,30 @@
 """C05 — searches maximise the objective(s).
 
-Real code: `CBO(...).search(max_evals=K)` on a finite candidate set in which every candidate is an
-initial point (so the history has observed every candidate), `kappa = 0`, `acq_optimizer="sampling"`,
-`filter_duplicated=False`; then `CBO.ask(1)` is the proposal.  Observed environment (spies, nothing is
-compared on private attributes): what `Space.rvs` sampled (the candidates), what the cloned surrogate
-was fitted on (`fit(X, y)`: the targets), what `_gaussian_acquisition` was evaluated on and returned
-(`mu`, `std`, `kappa`, values), the weight vector and utopia point each `MoScalarFunction.scalarize`
-call used.
+Real code: `CBO` on a finite candidate set (1-D integer space 0..K-1), `kappa = 0`, `acq_optimizer="sampling"`,
+`filter_duplicated=False`.  A case is a HISTORY with one or more surrogate fits: `search(max_evals=n_init)` on the
+given initial points (first fit), then further `tell` rounds that add — and improve on — observations (one fit per
+round, possibly with failed evaluations `"F"`), `ask(1)` after every fit; at the last fit every candidate has been
+observed.  Observed environment (spies; nothing is compared on private attributes): what `Space.rvs` sampled (the
+candidates), what each cloned surrogate was fitted on (`fit(X, y)`: the targets), what `_gaussian_acquisition` was
+evaluated on and returned (`mu`, `std`, `kappa`, values), the weight vector and utopia point of each
+`MoScalarFunction.scalarize` call.
 
-L2 (correspondence with `Model/Direction.lean`): the told values are the negated objectives; the model's
-    targets (objective scaler, utopia point, scalarisation — `quantile-uniform` enters as the scaled
-    history produced by the repo's own `cook_objective_scaler`, checked order-preserving into [0,1])
-    equal the fitted targets within 1e-9 relative; the model's acquisition values and arg-min equal the
-    implementation's; the proposal is the arg-min candidate; the name maps and `'auto'` scaler resolution.
-L3 (the property on the implementation): the proposal has maximal score whenever the observed surrogate
-    honours its contract (its arg-min over the candidates is a candidate whose fitted target is minimal);
-    the proposal's score does not change when a constant vector is added to the objectives or they are
-    multiplied by a positive factor; for independent objectives and Linear/Chebyshev/AugChebyshev the
-    proposal is not beaten in every objective by another candidate; on a monotone problem with the
-    default exploration settings the later proposals concentrate in the upper half of the range.
+L2 (correspondence with `Model/Direction.lean`), at EVERY fit, from the full history at that moment: the told values
+    are the negated objectives; the model's targets (objective scaler and utopia point re-estimated from the current
+    history, scalarisation, failure imputation `fitTargets` — `quantile-uniform` enters as the scaled history produced
+    by the repo's own `cook_objective_scaler`, checked order-preserving into [0,1]) equal the fitted targets; the
+    model's acquisition values and arg-min equal the implementation's; the proposal is the arg-min candidate; the name
+    maps (when observable) and `'auto'` scaler resolution.
+L3 (the property on the implementation's outputs): at every fit the fitted targets rank the successful observations
+    by score (strictly better score => strictly smaller target) and no failed configuration is ranked first; when all
+    sampled candidates are observed and the surrogate honours its contract the proposal is the best SUCCESSFUL
+    candidate; its score does not change when a constant vector is added to the objectives or they are multiplied by a
+    positive factor (1e-9 .. 1e9); independent objectives + Linear/Chebyshev/AugChebyshev: the proposal is not beaten in
+    every objective; monotone problems with default exploration: late proposals in the upper half, and — started from
+    initial points far below the maximiser — well above the best initial point.
 """
 import concurrent.futures as cf
 import json
-import math
 import multiprocessing
 import os
 import shutil
@@ -34,14 +36,29 @@ import numpy as np
 from .common import HarnessError, VERIF, rat, unrat
 
 STRATS = ["Linear", "Chebyshev", "AugChebyshev", "PBI", "Quadratic"]
+DISTANCE = ["Chebyshev", "AugChebyshev", "PBI", "Quadratic"]
 PARAM = {"Linear": 0.0, "Chebyshev": 0.0, "AugChebyshev": 0.001, "PBI": 5.0, "Quadratic": 10.0}
 MONOTONE = {"Linear", "Chebyshev", "AugChebyshev"}
 SCALERS = ["auto", "identity", "minmax", "quantile-uniform"]
 SURROGATES = ["ET", "RF", "GP"]
 INTERP_KW = {"n_estimators": 12, "bootstrap": False, "max_samples": None, "max_features": 1.0, "min_samples_split": 2}
+SCALES = [1.0, 1.0, 2.0, 0.01, 1000.0, 1e-9, 1e-7, 1e-5, 1e5, 1e9]
+FACTORS = [1e-9, 1e-7, 1e-5, 0.001, 0.5, 3.0, 250.0, 1e5, 1e9]
+EPS = 2.0 ** -52
 
 
 # --------------------------------------------------------------------------- generator
+
+
+def _consistent(objs, scores):
+    """the float objectives really are strictly increasing in the score, in every column (distinct doubles)"""
+    idx = sorted(range(len(scores)), key=lambda c: scores[c])
+    for a, b in zip(idx, idx[1:]):
+        if not scores[a] < scores[b]:
+            return False
+        if not all(x < y for x, y in zip(objs[a], objs[b])):
+            return False
+    return True
 
 
 def _gen_case(rng, t):
@@ -50,31 +67,37 @@ def _gen_case(rng, t):
     strategy = STRATS[(t // 3) % 5] if nobj >= 1 else "Chebyshev"
     scaler = SCALERS[(t // 15) % 4] if rng.random() < 0.85 else rng.choice(SCALERS)
     K = rng.choice([4, 5, 6, 8, 10])
-    kind = "aligned" if nobj <= 1 or rng.random() < 0.75 else "pareto"
+    kind = "aligned" if nobj <= 1 or rng.random() < 0.8 else "pareto"
     sign = rng.choice(["pos", "pos", "neg", "mixed"])
     m = max(nobj, 1)
-    # scores: distinct, not monotone in the candidate index
-    base = [float(v) for v in range(K)]
-    if rng.random() < 0.3:
-        base = [round(rng.uniform(0, 10), 3) + i * 0.37 for i in range(K)]
-    rng.shuffle(base)
-    lam = [rng.choice([1.0, 1.0, 2.0, 0.01, 1000.0, round(rng.uniform(0.1, 10), 2)]) for _ in range(m)]
-    span = [l * (max(base) - min(base)) for l in lam]
-    lo = [l * min(base) for l in lam]
-    off = []
-    for i in range(m):
-        gap = rng.choice([1.0, 10.0, 100.0]) * max(span[i], 1e-9) * rng.choice([0.1, 1.0, 1.0])
-        if sign == "pos":
-            off.append(-lo[i] + gap)                       # all values > 0
-        elif sign == "neg":
-            off.append(-lo[i] - span[i] - gap)             # all values < 0
-        else:
-            off.append(-lo[i] - span[i] * rng.uniform(0.2, 0.8))  # straddles 0
-    if kind == "pareto":
-        objs = [[round(rng.uniform(-5, 5) if sign == "mixed" else (rng.uniform(1, 9) if sign == "pos" else -rng.uniform(1, 9)), 3)
-                 for _ in range(m)] for _ in range(K)]
-    else:
+    for _ in range(20):
+        base = [float(v) for v in range(K)]
+        if rng.random() < 0.3:
+            base = [round(rng.uniform(0, 10), 3) + i * 0.37 for i in range(K)]
+        rng.shuffle(base)
+        # positive scales without bound in the property: tiny and huge ones, with offsets of larger magnitude
+        lam = [rng.choice(SCALES) if rng.random() < 0.8 else round(rng.uniform(0.1, 10), 2) for _ in range(m)]
+        span = [l * (max(base) - min(base)) for l in lam]
+        lo = [l * min(base) for l in lam]
+        off = []
+        for i in range(m):
+            gap = rng.choice([0.1, 1.0, 10.0, 100.0, 1e3, 1e5]) * max(span[i], 1e-300)
+            if sign == "pos":
+                off.append(-lo[i] + gap)                       # all values > 0
+            elif sign == "neg":
+                off.append(-lo[i] - span[i] - gap)             # all values < 0
+            else:
+                off.append(-lo[i] - span[i] * rng.uniform(0.2, 0.8))  # straddles 0
+        if kind == "pareto":
+            sc = rng.choice(SCALES)
+            objs = [[sc * round(rng.uniform(-5, 5) if sign == "mixed" else (rng.uniform(1, 9) if sign == "pos" else -rng.uniform(1, 9)), 3)
+                     for _ in range(m)] for _ in range(K)]
+            break
         objs = [[lam[i] * base[c] + off[i] for i in range(m)] for c in range(K)]
+        if _consistent(objs, base):
+            break
+    else:
+        raise HarnessError("generator could not build distinct float objectives")
     weights = None
     if nobj >= 1 and rng.random() < 0.5:
         weights = [round(rng.uniform(0.05, 1.0), 3) for _ in range(m)]
@@ -82,28 +105,58 @@ def _gen_case(rng, t):
             weights[rng.randrange(m)] = 0.0
     order = list(range(K))
     rng.shuffle(order)
-    return {
+    case = {
         "surrogate": surrogate, "interp": surrogate != "GP" and rng.random() < 0.8, "scaler": scaler, "strategy": strategy,
         "weights": weights, "nobj": nobj, "kind": kind, "sign": sign, "K": K, "scores": base, "objs": objs,
         "order": order, "seed": rng.randrange(1 << 20), "acq": rng.choice(["UCB", "UCBd"]) if surrogate != "GP" else "UCB",
-        "variants": rng.random() < 0.5,
+        "variants": rng.random() < 0.5, "n_init": K, "rounds": [], "fail": [], "ff": "min",
     }
+    # shape of the history: one fit / several fits with improving observations / failed evaluations
+    r = rng.random()
+    if r < 0.4 and K >= 5:
+        by_score = sorted(range(K), key=lambda c: base[c]) if kind == "aligned" and rng.random() < 0.7 else order[:]
+        n_init = rng.randint(2, K - 2)
+        init, rest = by_score[:n_init], by_score[n_init:]
+        rng.shuffle(init)
+        k = rng.choice([1, 2, 2, 3])
+        cuts = sorted(rng.sample(range(1, len(rest)), min(k - 1, len(rest) - 1))) if len(rest) > 1 else []
+        rounds = [rest[i:j] for i, j in zip([0] + cuts, cuts + [len(rest)])]
+        case.update({"order": init + rest, "n_init": n_init, "rounds": rounds})
+    elif r < 0.6 and K >= 5:
+        nf = rng.randint(1, max(1, K // 3))
+        fail = rng.sample(range(K), nf)
+        if kind == "aligned" and rng.random() < 0.5:
+            best = max(range(K), key=lambda c: base[c])      # the configuration that would be best fails
+            if best not in fail:
+                fail[0] = best
+        succ = [c for c in order if c not in fail]
+        n_init = rng.randint(2, len(succ))
+        rest = succ[n_init:] + fail
+        rng.shuffle(rest)
+        rounds = [rest] if rng.random() < 0.5 or len(rest) < 2 else [rest[: len(rest) // 2], rest[len(rest) // 2:]]
+        case.update({"order": succ[:n_init] + rest, "n_init": n_init, "rounds": rounds, "fail": sorted(fail),
+                     "ff": rng.choice(["min", "min", "mean"])})
+    return case
 
 
 def _variant(case, which, rng_seed):
-    """shifted / rescaled copy of the objectives (same everything else)"""
+    """shifted / rescaled copy of the objectives (same everything else); None when the floats would no longer be distinct"""
     r = np.random.RandomState(rng_seed)
     m = len(case["objs"][0])
     c = dict(case)
     if which == "shift":
-        mag = max(abs(v) for row in case["objs"] for v in row) + 1.0
+        mag = max(abs(v) for row in case["objs"] for v in row) + min(1.0, max(abs(v) for row in case["objs"] for v in row))
         vec = [float(r.choice([-3.0, -1.0, 1.0, 3.0]) * mag) for _ in range(m)]
         c["objs"] = [[row[i] + vec[i] for i in range(m)] for row in case["objs"]]
         c["variant"] = {"shift": vec}
     else:
-        f = float(r.choice([0.001, 0.5, 3.0, 250.0]))
+        f = float(r.choice(FACTORS))
         c["objs"] = [[row[i] * f for i in range(m)] for row in case["objs"]]
         c["variant"] = {"scale": f}
+    if not all(np.isfinite(v) and (v == 0 or abs(v) > 1e-290) for row in c["objs"] for v in row):
+        return None
+    if case["kind"] == "aligned" and not _consistent(c["objs"], case["scores"]):
+        return None
     return c
 
 
@@ -123,7 +176,7 @@ class _Spies:
         import deephyper.skopt.moo as moo
 
         self.om, self.sp, self.moo = om, sp, moo
-        self.rec = {"fit": [], "acq": [], "rvs": [], "scal": []}
+        self.rec = {"fit": [], "acq": [], "rvs": [], "scal": [], "spy_error": []}
 
     def __enter__(self):
         om, sp, moo, rec = self.om, self.sp, self.moo, self.rec
@@ -135,37 +188,55 @@ class _Spies:
             f = e.fit
 
             def fit(X, y, *a, **k):
-                rec["fit"].append((np.array(X, dtype=float), np.array(y, dtype=float)))
+                try:
+                    last = rec["scal"][-1] if rec["scal"] else None
+                    rec["fit"].append({"y": np.array(y, dtype=float).tolist(), "w": last and last["w"], "u": last and last["u"]})
+                except Exception as e:
+                    rec["spy_error"].append("fit spy: " + repr(e))
                 return f(X, y, *a, **k)
 
             e.fit = fit
             return e
 
-        def acq_spy(X, model, y_opt=None, acq_func="LCB", return_grad=False, acq_func_kwargs=None, **extra):
-            # **extra: pass through whatever further keywords the code's own signature has (e.g. random_state)
-            v = self._acq(X, model, y_opt=y_opt, acq_func=acq_func, return_grad=return_grad, acq_func_kwargs=acq_func_kwargs, **extra)
-            if acq_func.endswith("d") and acq_func != "gp_hedged":
-                mu, _, sd = model.predict(X, return_std=True, disentangled_std=True)
-            else:
-                mu, sd = model.predict(X, return_std=True)
-            rec["acq"].append({"X": np.array(X, dtype=float), "mu": np.array(mu, dtype=float), "sd": np.array(sd, dtype=float),
-                               "kappa": float((acq_func_kwargs or {}).get("kappa", 1.96)), "acq_func": acq_func,
-                               "values": np.array(v, dtype=float)})
+        def acq_spy(*args, **kwargs):
+            v = self._acq(*args, **kwargs)
+            try:  # observation only: whatever the signature is today, never let the spy break the code under test
+                import inspect
+
+                b = inspect.signature(self._acq).bind(*args, **kwargs)
+                b.apply_defaults()
+                X, model, acq_func = b.arguments["X"], b.arguments["model"], b.arguments["acq_func"]
+                kwa = b.arguments.get("acq_func_kwargs") or {}
+                if acq_func.endswith("d") and acq_func != "gp_hedged":
+                    mu, _, sd = model.predict(X, return_std=True, disentangled_std=True)
+                else:
+                    mu, sd = model.predict(X, return_std=True)
+                cands = rec["rvs"][-1] if rec["rvs"] else []
+                rec["acq"].append({"mu": np.array(mu, dtype=float).tolist(), "sd": np.array(sd, dtype=float).tolist(),
+                                   "kappa": float(kwa.get("kappa", 1.96)), "acq_func": acq_func,
+                                   "values": np.array(v, dtype=float).tolist(), "cands": [int(x[0]) for x in cands]})
+            except Exception as e:
+                rec["spy_error"].append("acquisition spy: " + repr(e))
             return v
 
         def rvs_spy(this, *a, **k):
             r = self._rvs(this, *a, **k)
-            rec["rvs"].append([list(x) for x in r])
+            try:
+                rec["rvs"].append([list(x) for x in r])
+            except Exception as e:
+                rec["spy_error"].append("rvs spy: " + repr(e))
             return r
 
         def wrap(cls):
             class Spy(cls):
                 def scalarize(this, y):
                     out = cls.scalarize(this, y)
-                    up = this._utopia_point
-                    rec["scal"].append({"w": np.array(this._weight, dtype=float).tolist(),
-                                        "u": None if up is None else np.array(up, dtype=float).tolist(),
-                                        "y": np.array(y, dtype=float).tolist(), "out": float(out)})
+                    try:
+                        up = getattr(this, "_utopia_point", None)
+                        rec["scal"].append({"w": np.array(this._weight, dtype=float).tolist(),
+                                            "u": None if up is None else np.array(up, dtype=float).tolist()})
+                    except Exception as e:
+                        rec["spy_error"].append("scalarize spy: " + repr(e))
                     return out
             Spy.__name__ = cls.__name__
             return Spy
@@ -181,8 +252,15 @@ class _Spies:
             self.moo.moo_functions[k] = v
 
 
+def _objective(case, c):
+    if c in case.get("fail", []):
+        return "F"
+    o = case["objs"][c]
+    return float(o[0]) if case["nobj"] == 0 else tuple(float(v) for v in o)
+
+
 def _observe(case):
-    """run the real search on one case; returns plain data (picklable)"""
+    """run the real search history of one case; returns plain data (picklable)"""
     import warnings
 
     warnings.filterwarnings("ignore")
@@ -191,11 +269,12 @@ def _observe(case):
     from deephyper.skopt.utils import cook_objective_scaler
     from deephyper.skopt.learning import RandomForestRegressor
 
-    K, nobj = case["K"], case["nobj"]
+    K = case["K"]
+    n_init = case.get("n_init", K)
+    rounds = case.get("rounds", [])
     _TABLE.clear()
     for c in range(K):
-        o = case["objs"][c]
-        _TABLE[c] = float(o[0]) if nobj == 0 else tuple(float(v) for v in o)
+        _TABLE[c] = _objective(case, c)
     problem = HpProblem()
     problem.add_hyperparameter((0, K - 1), "a")
     tmp = tempfile.mkdtemp(prefix="c05_")
@@ -209,35 +288,36 @@ def _observe(case):
                 surrogate_model=case["surrogate"], surrogate_model_kwargs=kw,
                 acq_func=case["acq"], kappa=0.0, xi=0.0, acq_optimizer="sampling",
                 scheduler={"type": "periodic-exp-decay", "period": 10, "rate": 0.0},
-                n_initial_points=K, initial_points=[{"a": int(a)} for a in case["order"]],
+                n_initial_points=n_init, initial_points=[{"a": int(a)} for a in case["order"][:n_init]],
                 n_points=60 + 10 * K, filter_duplicated=False, objective_scaler=case["scaler"],
                 moo_scalarization_strategy=case["strategy"], moo_scalarization_weight=case["weights"],
+                filter_failures=case.get("ff", "min"),
             )
-            res = search.search(max_evals=K)
-            prop = search.ask(1)[0]
+            res = search.search(max_evals=n_init)
+            told = [int(v) for v in res["p:a"].tolist()]
+            proposals = [int(search.ask(1)[0]["a"])]
+            for rnd in rounds:
+                search.tell([({"a": int(c)}, _objective(case, c)) for c in rnd])
+                told += [int(c) for c in rnd]
+                proposals.append(int(search.ask(1)[0]["a"]))
             rec = spies.rec
-            out["proposal"] = int(prop["a"])
-            out["told_a"] = [int(v) for v in res["p:a"].tolist()]
-            if not rec["fit"] or not rec["acq"] or not rec["rvs"]:
-                raise HarnessError(f"spies saw fit={len(rec['fit'])} acq={len(rec['acq'])} rvs={len(rec['rvs'])}")
-            out["nfit"] = len(rec["fit"])
-            out["y_fit"] = rec["fit"][-1][1].tolist()
-            a = rec["acq"][-1]
-            out["acq"] = {"mu": a["mu"].tolist(), "sd": a["sd"].tolist(), "kappa": a["kappa"], "values": a["values"].tolist(),
-                          "acq_func": a["acq_func"]}
-            out["cands"] = [int(x[0]) for x in rec["rvs"][-1]]
-            if len(out["cands"]) != len(out["acq"]["mu"]):
-                raise HarnessError("candidate list and acquisition values differ in length")
-            nscal = len(out["y_fit"])
-            sc = rec["scal"][-nscal:] if rec["scal"] else []
-            out["w"] = sc[0]["w"] if sc else None
-            out["u"] = sc[0]["u"] if sc else None
-            # the scaled history, from the repo's own scaler factory (public function), on the told values
-            told = [[-float(v) for v in case["objs"][c]] for c in out["told_a"]]
+            out["told_a"] = told
+            out["proposals"] = proposals
+            out["fits"] = rec["fit"]
+            out["acqs"] = rec["acq"]
+            out["spy_error"] = rec["spy_error"][:3]
+            # the scaled history at every fit, from the repo's own scaler factory (public function), on the
+            # successful told values of that moment
             forest = case["surrogate"] in ("RF", "ET")
-            scl = cook_objective_scaler(case["scaler"], RandomForestRegressor() if forest else None)
-            arr = np.asarray(told, dtype=float)
-            out["scaled"] = np.asarray(scl.fit(arr).transform(arr), dtype=float).tolist()
+            out["scaled"] = []
+            for f in rec["fit"]:
+                rows = [[-float(v) for v in case["objs"][c]] for c in told[: len(f["y"])] if c not in case.get("fail", [])]
+                if not rows:
+                    out["scaled"].append([])
+                    continue
+                scl = cook_objective_scaler(case["scaler"], RandomForestRegressor() if forest else None)
+                arr = np.asarray(rows, dtype=float)
+                out["scaled"].append(np.asarray(scl.fit(arr).transform(arr), dtype=float).tolist())
             try:
                 ev.close()
             except Exception:
@@ -295,17 +375,21 @@ def _eff_scaler(case, names):
     return (names["scaler_forest"] if case["surrogate"] in ("RF", "ET") else names["scaler_other"])[i]
 
 
-def _request(case, obs, eff):
-    told = [[-float(v) for v in case["objs"][c]] for c in obs["told_a"]]
-    pos = {c: i for i, c in enumerate(obs["told_a"])}
-    w = obs["w"] if obs["w"] is not None else [1.0] * max(case["nobj"], 1)
-    req = {"op": "case", "single": case["nobj"] == 0, "told": [[rat(v) for v in r] for r in told],
+def _request(case, obs, eff, i):
+    f, a = obs["fits"][i], obs["acqs"][i]
+    n = len(f["y"])
+    ids = obs["told_a"][:n]
+    fail = set(case.get("fail", []))
+    told = [None if c in fail else [rat(-float(v)) for v in case["objs"][c]] for c in ids]
+    pos = {c: k for k, c in enumerate(ids)}
+    w = f["w"] if f["w"] is not None else [1.0] * max(case["nobj"], 1)
+    req = {"op": "case", "single": case["nobj"] == 0, "told": told,
            "scaler": {"identity": "identity", "minmax": "minmax"}.get(eff, "given"),
            "strategy": case["strategy"], "param": rat(PARAM[case["strategy"]]), "w": [rat(v) for v in w],
-           "cands": [pos[c] for c in obs["cands"]], "mu": [rat(v) for v in obs["acq"]["mu"]],
-           "sd": [rat(v) for v in obs["acq"]["sd"]], "kappa": rat(obs["acq"]["kappa"])}
+           "cands": [pos.get(c, n) for c in a["cands"]], "mu": [rat(v) for v in a["mu"]],
+           "sd": [rat(v) for v in a["sd"]], "kappa": rat(a["kappa"]), "ff": case.get("ff", "min"), "maxf": 100}
     if req["scaler"] == "given":
-        req["scaled"] = [[rat(v) for v in r] for r in obs["scaled"]]
+        req["scaled"] = [[rat(v) for v in r] for r in obs["scaled"][i]]
     return req
 
 
@@ -313,22 +397,156 @@ def _close(a, b, scale, rel=1e-9):
     return abs(a - b) <= rel * max(scale, 1e-300)
 
 
-def _fp(clause, case, eff, entry="CBO.ask"):
+def _fp(clause, case, eff, entry="CBO.ask", extra=""):
     opts = f"scaler={eff}"
     if case["nobj"] >= 1:
         opts += f",strategy={case['strategy']}"
     else:
         opts += ",single-objective"
-    return f"C05|{clause}|{entry}|{opts}"
+    return f"C05|{clause}|{entry}|{opts}{extra}"
 
 
-def _score_of(case):
-    """what 'larger is better' means for this case, per candidate: the common score (aligned) or None"""
-    return case["scores"] if case["kind"] == "aligned" else None
+def _cond(rows):
+    """conditioning of "subtract the column minimum" (utopia point / MinMaxScaler's X*scale + min_) in doubles:
+    an offset that is large against the column range costs eps*|y|/range of relative accuracy"""
+    cond = 1.0
+    for j in range(len(rows[0])):
+        col = [r[j] for r in rows]
+        rng_j = max(col) - min(col)
+        if rng_j > 0:
+            cond = max(cond, max(abs(v) for v in col) / rng_j)
+    return cond
 
 
-def _judge(ck, case, obs, rep, eff):
-    """returns the chosen candidate's score (or None) for the variant comparison"""
+def _judge_fit(ck, case, obs, rep, eff, i, failed_before):
+    """one surrogate fit of the history; returns (score of the proposal, best score) when the maximality oracle applied"""
+    f, a = obs["fits"][i], obs["acqs"][i]
+    y_fit = f["y"]
+    n = len(y_fit)
+    ids = obs["told_a"][:n]
+    fail = set(case.get("fail", []))
+    pos = {c: k for k, c in enumerate(ids)}
+    succ = [c for c in ids if c not in fail]
+    later = ",later-fit" if i >= 1 else ""
+    ffx = f",filter_failures={case.get('ff', 'min')}"
+    ck.count(f"fit:{'first' if i == 0 else 'later'}{'+failures' if any(c in fail for c in ids) else ''}")
+    if not succ:
+        return None
+    rows = [[-float(v) for v in case["objs"][c]] for c in succ]
+    cond = _cond(rows)
+    rel = 1e-9 + 64 * EPS * cond
+    ck.count("cond:" + ("<1e3" if cond < 1e3 else "<1e6" if cond < 1e6 else ">=1e6"))
+    # ---- L2: targets of this fit, from the full history at this moment
+    tg = rep["targets"]
+    if tg is None:
+        ck.mismatch(case, {"what": "model has no targets (error branch: " + rep.get("targets_err", "") + ") but the implementation fitted", "fit": i})
+        tg = None
+    else:
+        tg = [float(unrat(v)) for v in tg]
+        scale = max(max(abs(v) for v in tg), max(abs(v) for v in y_fit))
+        bad = len(tg) != n or not all(_close(x, y, scale, rel) for x, y in zip(tg, y_fit))
+        if not rep["contract"]:
+            ck.mismatch(case, {"what": "the repo's quantile-uniform scaler is not an order-preserving map into [0,1] on this history "
+                                       "(assumption of the model broken)", "fit": i, "scaled": obs["scaled"][i]})
+        if bad:
+            pre = [float(unrat(v)) for v in rep["pre_targets"]] if rep.get("pre_targets") else None
+            ck.mismatch(case, {"what": "fitted targets differ from the model's", "fit": i, "told": ids, "impl": y_fit, "model": tg,
+                               "weights": f["w"], "utopia_impl": f["u"], "filter_failures": case.get("ff", "min"),
+                               "ff_internal_model": rep.get("ff_internal")})
+            ck.count("L2:targets-differ" + (":impl=pre-fix-model" if pre and len(pre) == n and all(_close(x, y, scale, rel) for x, y in zip(pre, y_fit)) else ""))
+    scale = max(abs(v) for v in y_fit) or 1.0
+    # ---- L2: acquisition and arg-min
+    acq = [float(unrat(v)) for v in rep["acq"]]
+    vals = a["values"]
+    ascale = max(max(abs(v) for v in vals), 1e-300)
+    if len(acq) != len(vals) or not all(_close(x, y, ascale, 1e-12) for x, y in zip(acq, vals)):
+        ck.mismatch(case, {"what": "acquisition values differ from mu - kappa*std", "kappa": a["kappa"], "fit": i})
+    if a["kappa"] != 0.0:
+        ck.mismatch(case, {"what": "kappa reaching the acquisition is not the 0 that was configured", "kappa": a["kappa"]})
+    if a["acq_func"] != {"UCB": "LCB", "UCBd": "LCBd"}[case["acq"]]:
+        ck.mismatch(case, {"what": "acquisition name not mapped UCB->LCB", "got": a["acq_func"]})
+    choice = rep["choice"]
+    cand = a["cands"]
+    prop = obs["proposals"][i]
+    if choice is None or len(cand) != len(vals) or cand[choice] != prop:
+        ck.mismatch(case, {"what": "proposal is not the first arg-min candidate of the acquisition", "fit": i,
+                           "proposal": prop, "model_choice": None if choice is None or len(cand) != len(vals) else cand[choice]})
+    # ---- L3: the property on the implementation's own outputs
+    score = case["scores"] if case["kind"] == "aligned" else None
+    tmin_s = min(y_fit[pos[c]] for c in succ)
+    tmax_s = max(y_fit[pos[c]] for c in succ)
+    base_detail = {"fit": i, "told": ids, "failed_configurations": sorted(fail & set(ids)), "fitted_targets_by_candidate": {c: y_fit[pos[c]] for c in ids},
+                   "objectives": {c: case["objs"][c] for c in ids if c not in fail}, "weights": f["w"], "utopia": f["u"], "effective_scaler": eff}
+    # (a) the fitted targets rank the successful observations by score
+    if score is not None and len(succ) >= 2:
+        srt = sorted(succ, key=lambda c: score[c])
+        gaps = [score[b] - score[a_] for a_, b in zip(srt, srt[1:])]
+        delta = min(gaps) / (score[srt[-1]] - score[srt[0]])
+        if 64 * EPS * cond >= 0.01 * delta * delta:
+            ck.count("antitone:skipped-ill-conditioned")
+        else:
+            ck.count("antitone:checked")
+            for a_, b in zip(srt, srt[1:]):
+                if not y_fit[pos[b]] < y_fit[pos[a_]]:
+                    d = dict(base_detail)
+                    d.update({"better": {"candidate": b, "score": score[b], "target": y_fit[pos[b]]},
+                              "worse": {"candidate": a_, "score": score[a_], "target": y_fit[pos[a_]]}})
+                    if "targets-not-antitone" not in failed_before:
+                        ck.fail(_fp("targets-not-antitone", case, eff, "Optimizer.tell", later),
+                                "an observation with larger objective(s) does not get a strictly smaller fitted target", case, d)
+                    failed_before.add("targets-not-antitone")
+                    break
+    # (b) failed evaluations are never ranked first
+    for c in ids:
+        if c in fail:
+            t = y_fit[pos[c]]
+            if t < tmin_s - 1e-12 * scale or (tmax_s - tmin_s > 1e-9 * scale and t <= tmin_s + 1e-12 * scale):
+                d = dict(base_detail)
+                d.update({"failed_candidate": c, "its_target": t, "best_successful_target": tmin_s, "worst_successful_target": tmax_s})
+                ck.fail(_fp("failed-config-ranked-first", case, eff, "Optimizer.tell", ffx),
+                        "a failed configuration gets a fitted target at least as good as the best successful one", case, d)
+                break
+    # (c) the proposal
+    present = sorted(set(cand))
+    if not set(present) <= set(ids):
+        ck.count("proposal:unobserved-candidates-sampled")
+        return None
+    tmin = min(y_fit[pos[c]] for c in present)
+    k_hat = int(np.argmin(np.asarray(vals)))
+    contract_met = _close(y_fit[pos[cand[k_hat]]], tmin, scale, 1e-12)
+    ck.count("surrogate-contract:" + ("met" if contract_met else "not-met"))
+    if prop not in pos:
+        ck.fail(_fp("proposal-outside-candidates", case, eff), "proposal is not one of the candidates", case, {"proposal": prop})
+        return None
+    succ_present = [c for c in present if c not in fail]
+    detail = dict(base_detail)
+    detail.update({"proposal": prop})
+    if not contract_met or not succ_present:
+        return None
+    if prop in fail:
+        ck.fail(_fp("proposed-failed-config", case, eff, "CBO.ask", ffx),
+                "a failed configuration is proposed although successful ones exist", case, detail)
+        return None
+    if score is not None:
+        best = max(score[c] for c in succ_present)
+        if score[prop] != best and "chosen-not-max" not in failed_before:
+            detail.update({"score_of_proposal": score[prop], "best_score": best, "best_candidate": [c for c in succ_present if score[c] == best]})
+            ck.fail(_fp("chosen-not-max", case, eff, "CBO.ask", later), "with every candidate observed and kappa=0 the proposal is not the successful "
+                    "candidate of largest objective(s)", case, detail)
+            failed_before.add("chosen-not-max")
+        return score[prop], best
+    if case["strategy"] in MONOTONE and (f["w"] is None or all(v >= 0 for v in f["w"])):
+        po = case["objs"][prop]
+        for c in succ_present:
+            if all(x > y for x, y in zip(case["objs"][c], po)):
+                detail.update({"dominating_candidate": c, "its_objectives": case["objs"][c], "objectives_of_proposal": po})
+                ck.fail(_fp("proposal-beaten-in-every-objective", case, eff),
+                        "another observed candidate is strictly better in every objective than the proposal", case, detail)
+                break
+    return None
+
+
+def _judge(ck, case, obs, reps, eff):
     K = case["K"]
     ck.count(f"surrogate:{case['surrogate']}{'+interp' if case['interp'] else ''}")
     ck.count(f"scaler:{case['scaler']}->{eff}")
@@ -336,106 +554,53 @@ def _judge(ck, case, obs, rep, eff):
     ck.count(f"nobj:{case['nobj']}")
     ck.count(f"kind:{case['kind']}/{case['sign']}")
     ck.count("weights:" + ("none" if case["nobj"] == 0 else "random" if case["weights"] is None else "fixed"))
-    told_set = sorted(obs["told_a"])
-    if told_set != list(range(K)):
-        ck.mismatch(case, {"what": "the search did not evaluate exactly the initial points", "told": obs["told_a"]})
+    ck.count("history:" + ("failures/" + case.get("ff", "min") if case.get("fail") else f"fits={1 + len(case.get('rounds', []))}"))
+    mags = [abs(v) for r in case["objs"] for v in r if v != 0]
+    ck.count("magnitude:" + ("<=1e-4" if max(mags) <= 1e-4 else ">=1e6" if max(mags) >= 1e6 else "moderate"))
+    if sorted(obs["told_a"]) != list(range(K)):
+        ck.mismatch(case, {"what": "the history did not evaluate exactly the candidates", "told": obs["told_a"]})
         return None
     if obs["told_a"] != [int(a) for a in case["order"]]:
-        ck.mismatch(case, {"what": "initial points were not evaluated in the given order", "told": obs["told_a"]})
-    # ---- L2: targets
-    y_fit = obs["y_fit"]
-    tg = rep["targets"]
-    if tg is None:
-        ck.mismatch(case, {"what": "model has no targets (error branch) but the implementation fitted", "reply": rep})
-        return None
-    tg = [float(unrat(v)) for v in tg]
-    scale = max(max(abs(v) for v in tg), max(abs(v) for v in y_fit))
-    # conditioning of "subtract the column minimum" (utopia point / MinMaxScaler's X*scale + min_) in doubles:
-    # an offset that is large against the column range costs eps*|y|/range of relative accuracy
-    told_rows = [[-float(v) for v in case["objs"][c]] for c in obs["told_a"]]
-    cond = 1.0
-    for j in range(len(told_rows[0])):
-        col = [r[j] for r in told_rows]
-        rng_j = max(col) - min(col)
-        if rng_j > 0:
-            cond = max(cond, max(abs(v) for v in col) / rng_j)
-    rel = 1e-9 + 64 * 2.0 ** -52 * cond
-    ck.count("cond:" + ("<1e3" if cond < 1e3 else "<1e6" if cond < 1e6 else ">=1e6"))
-    bad_targets = len(tg) != len(y_fit) or not all(_close(a, b, scale, rel) for a, b in zip(tg, y_fit))
-    if not rep["contract"]:
-        ck.mismatch(case, {"what": "the repo's quantile-uniform scaler is not an order-preserving map into [0,1] on this history "
-                                   "(assumption of the model broken)", "scaled": obs["scaled"]})
-    if bad_targets:
-        pre = [float(unrat(v)) for v in rep["pre_targets"]] if rep["pre_targets"] else None
-        ck.mismatch(case, {"what": "fitted targets differ from the model's", "impl": y_fit, "model": tg, "model_pre_fix": pre,
-                           "weights": obs["w"], "utopia_impl": obs["u"]})
-        ck.count("L2:targets-differ" + (":impl=pre-fix-model" if pre and len(pre) == len(y_fit) and all(_close(a, b, scale, rel) for a, b in zip(pre, y_fit)) else ""))
-    # ---- L2: acquisition and arg-min
-    acq = [float(unrat(v)) for v in rep["acq"]]
-    vals = obs["acq"]["values"]
-    ascale = max(max(abs(v) for v in vals), 1e-300)
-    if len(acq) != len(vals) or not all(_close(a, b, ascale, 1e-12) for a, b in zip(acq, vals)):
-        ck.mismatch(case, {"what": "acquisition values differ from mu - kappa*std", "kappa": obs["acq"]["kappa"]})
-    if obs["acq"]["kappa"] != 0.0:
-        ck.mismatch(case, {"what": "kappa reaching the acquisition is not the 0 that was configured", "kappa": obs["acq"]["kappa"]})
-    if obs["acq"]["acq_func"] != {"UCB": "LCB", "UCBd": "LCBd"}[case["acq"]]:
-        ck.mismatch(case, {"what": "acquisition name not mapped UCB->LCB", "got": obs["acq"]["acq_func"]})
-    choice = rep["choice"]
-    cand = obs["cands"]
-    if choice is None or cand[choice] != obs["proposal"]:
-        ck.mismatch(case, {"what": "proposal is not the first arg-min candidate of the acquisition",
-                           "proposal": obs["proposal"], "model_choice": None if choice is None else cand[choice]})
-    # ---- L3: the property on the implementation's own outputs
-    pos = {c: i for i, c in enumerate(obs["told_a"])}
-    present = sorted(set(cand))
-    tmin = min(y_fit[pos[c]] for c in present)
-    mu = obs["acq"]["mu"]
-    k_hat = int(np.argmin(np.asarray(vals)))
-    # contract of the surrogate as observed: its arg-min is a candidate whose fitted target is minimal
-    contract_met = _close(y_fit[pos[cand[k_hat]]], tmin, scale, 1e-12)
-    ck.count("surrogate-contract:" + ("met" if contract_met else "not-met"))
-    ck.count("all-candidates-sampled:" + str(present == list(range(K))))
-    prop = obs["proposal"]
-    if prop not in pos:
-        ck.fail(_fp("proposal-outside-candidates", case, eff), "proposal is not one of the candidates", case, {"proposal": prop})
-        return None
-    score = _score_of(case)
-    detail = {"proposal": prop, "objectives_of_proposal": case["objs"][prop], "fitted_targets_by_candidate": {c: y_fit[pos[c]] for c in present},
-              "weights": obs["w"], "utopia": obs["u"], "effective_scaler": eff}
-    if score is not None and contract_met:
-        best = max(score[c] for c in present)
-        if score[prop] != best:
-            detail["score_of_proposal"] = score[prop]
-            detail["best_score"] = best
-            detail["best_candidate"] = [c for c in present if score[c] == best]
-            ck.fail(_fp("chosen-not-max", case, eff), "with every candidate observed and kappa=0 the proposal is not the candidate of largest objective(s)",
-                    case, detail)
-        return score[prop], best
-    if score is None and contract_met and case["strategy"] in MONOTONE and (obs["w"] is None or all(v >= 0 for v in obs["w"])):
-        po = case["objs"][prop]
-        for c in present:
-            if all(a > b for a, b in zip(case["objs"][c], po)):
-                detail["dominating_candidate"] = c
-                detail["its_objectives"] = case["objs"][c]
-                ck.fail(_fp("proposal-beaten-in-every-objective", case, eff),
-                        "another observed candidate is strictly better in every objective than the proposal", case, detail)
-                break
-    return None
+        ck.mismatch(case, {"what": "points were not evaluated in the given order", "told": obs["told_a"]})
+    nfit = len(reps)
+    if not (len(obs["fits"]) == len(obs["acqs"]) == len(obs["proposals"]) == 1 + len(case.get("rounds", []))):
+        ck.mismatch(case, {"what": "unexpected number of surrogate fits / acquisitions", "fits": len(obs["fits"]), "acqs": len(obs["acqs"]),
+                           "rounds": 1 + len(case.get("rounds", []))})
+    out = None
+    failed_before = set()
+    for i in range(nfit):
+        out = _judge_fit(ck, case, obs, reps[i], eff, i, failed_before)
+    return out
 
 
-# --------------------------------------------------------------------------- monotone-problem run
+# --------------------------------------------------------------------------- monotone-problem runs
 
 
 def _monotone_case(rng, t):
-    K = 20
-    nobj = rng.choice([0, 2, 3])
-    return {"mono": True, "surrogate": SURROGATES[t % 3], "scaler": SCALERS[(t // 3) % 4], "strategy": STRATS[t % 5], "nobj": nobj, "K": K,
+    """(a) `climb`: 8 fixed initial points in the lower 55 % of 0..K-1 (best well below the maximiser), identity scaler
+    (explicit, or `auto` with GP), every strategy — distance-based ones most often — x {ET, GP};
+    (b) random initial points over the whole range, whole matrix."""
+    r = t % 8
+    if r < 6:
+        K = rng.choice([101, 201])
+        sur = "ET" if r < 4 else "GP"
+        strat = DISTANCE[r] if r < 4 else DISTANCE[((t // 8) * 2 + (r - 4)) % 4]
+        if rng.random() < 0.1:
+            strat = "Linear"
+        init = [int(round((K - 1) * q)) for q in (0.025, 0.1, 0.175, 0.25, 0.325, 0.4, 0.475, 0.55)]
+        return {"mono": True, "climb": True, "surrogate": sur, "scaler": "auto" if sur == "GP" and rng.random() < 0.5 else "identity",
+                "strategy": strat, "nobj": rng.choice([2, 2, 3]), "K": K,
+                "sign": ["pos", "neg", "mixed"][(t // 2) % 3], "seed": rng.randrange(1 << 20), "init": init,
+                "n_evals": 8 + (14 if sur == "GP" else 24)}
+    return {"mono": True, "surrogate": SURROGATES[t % 3], "scaler": SCALERS[(t // 3) % 4], "strategy": STRATS[t % 5], "nobj": rng.choice([0, 2, 3]), "K": 20,
             "sign": ["pos", "neg", "mixed"][(t // 2) % 3], "seed": rng.randrange(1 << 20), "n_evals": 26 if SURROGATES[t % 3] == "GP" else 36}
 
 
 def _mono_objs(case):
     K, m = case["K"], max(case["nobj"], 1)
     off = {"pos": 50.0, "neg": -50.0 - K, "mixed": -K / 2.0}[case["sign"]]
+    if case.get("climb"):   # (x, 2x+3, 3x+6, ...) plus the sign-class offset
+        return [[(i + 1) * float(a) + 3.0 * i + off * (i + 1) for i in range(m)] for a in range(K)]
     return [[(i + 1) * float(a) + off * (i + 1) for i in range(m)] for a in range(K)]
 
 
@@ -457,11 +622,14 @@ def _observe_mono(case):
     out = {"error": None}
     try:
         ev = Evaluator.create(_run_function, method="serial")
+        extra = {}
+        if case.get("init"):
+            extra = {"initial_points": [{"a": int(a)} for a in case["init"]]}
         search = CBO(problem, ev, random_state=case["seed"], log_dir=tmp, verbose=0, surrogate_model=case["surrogate"],
                      surrogate_model_kwargs={"n_estimators": 25} if case["surrogate"] != "GP" else None,
-                     acq_func="UCB", acq_optimizer="sampling", n_initial_points=8, n_points=200, filter_duplicated=False,
-                     objective_scaler=case["scaler"], moo_scalarization_strategy=case["strategy"],
-                     moo_scalarization_weight=[1.0 / max(nobj, 1)] * max(nobj, 1) if nobj else None)
+                     acq_func="UCB", acq_optimizer="sampling", n_initial_points=8, n_points=300 if case.get("climb") else 200,
+                     filter_duplicated=False, objective_scaler=case["scaler"], moo_scalarization_strategy=case["strategy"],
+                     moo_scalarization_weight=[1.0 / max(nobj, 1)] * max(nobj, 1) if nobj else None, **extra)
         res = search.search(max_evals=case["n_evals"])
         out["a"] = [int(v) for v in res.sort_values("job_id")["p:a"].tolist()] if "job_id" in res.columns else [int(v) for v in res["p:a"].tolist()]
         try:
@@ -479,15 +647,33 @@ def _observe_mono(case):
 
 
 def _judge_mono(ck, case, obs, eff):
-    ck.count(f"mono:{case['surrogate']}/{eff}/{case['strategy'] if case['nobj'] else 'single'}/{case['sign']}")
+    kind = "climb" if case.get("climb") else "mono"
+    ck.count(f"{kind}:{case['surrogate']}/{eff}/{case['strategy'] if case['nobj'] else 'single'}/{case['sign']}")
     if obs["error"]:
         ck.fail(f"C05|raises|CBO.search|{obs['error'].split(':')[0]}", "search raised on a monotone problem", case, obs)
         return
     a = obs["a"]
+    top = case["K"] - 1
+    if case.get("climb"):
+        init = case["init"]
+        if a[: len(init)] != init:
+            ck.mismatch(case, {"what": "the given initial points were not evaluated first", "evaluated": a[: len(init)]})
+        late = a[-6:]
+        mean_late = sum(late) / len(late)
+        best_init = max(init)
+        # half way between the best initial point and the maximiser: a search that keeps climbing ends far above it,
+        # a search pulled back to the best point of its first surrogate fit ends at best_init
+        thr = best_init + 0.5 * (top - best_init)
+        ck.count("climb:late-mean>=0.9top" if mean_late >= 0.9 * top else "climb:late-mean<0.9top")
+        if mean_late <= thr:
+            ck.fail(_fp("stuck-below-maximiser", case, eff, "CBO.search"),
+                    "on a monotone problem started far below the maximiser the late proposals stay near the best initial point", case,
+                    {"proposals": a, "late_mean": mean_late, "best_initial_point": best_init, "maximiser": top, "threshold": thr})
+        return
     late = a[-12:]
-    mid = (case["K"] - 1) / 2.0
+    mid = top / 2.0
     mean_late = sum(late) / len(late)
-    ck.count("mono:late-mean>=0.75K" if mean_late >= 0.75 * (case["K"] - 1) else "mono:late-mean<0.75K")
+    ck.count("mono:late-mean>=0.75K" if mean_late >= 0.75 * top else "mono:late-mean<0.75K")
     if mean_late <= mid:
         ck.fail(_fp("concentrates-away-from-maximiser", case, eff, "CBO.search"),
                 "on a monotone problem (objective increasing in a) the late proposals concentrate in the lower half", case,
@@ -504,16 +690,23 @@ def _check_names(ck, d):
             "boltzmann", "qUCB", "qUCBd", "min", "mean", "max", "ignore", "auto", "identity", "minmax", "quantile-uniform", "log", "minmaxlog"]
     rep = d.ask({"op": "names", "keys": keys})
     rep["keys"] = keys
-    for name, table in (("acq", cbo.MAP_acq_func), ("mp", cbo.MAP_multi_point_strategy), ("ff", cbo.MAP_filter_failures)):
+    # the tables are private module constants: when one is not there the map is simply not observable this way
+    # (L2 mismatch, never a harness error); its EFFECT is still checked end to end (acquisition name reaching
+    # _gaussian_acquisition, failure imputation in the fitted targets)
+    want = {"acq": {"UCB": "LCB", "UCBd": "LCBd"}, "mp": {"cl_max": "cl_min", "cl_min": "cl_max", "qUCB": "qLCB", "qUCBd": "qLCBd"}, "ff": {"min": "max"}}
+    attr = {"acq": "MAP_acq_func", "mp": "MAP_multi_point_strategy", "ff": "MAP_filter_failures"}
+    for name in ("acq", "mp", "ff"):
+        table = getattr(cbo, attr[name], None)
+        if not isinstance(table, dict):
+            ck.mismatch({"names": name}, {"what": f"name map _cbo.{attr[name]} is not observable (missing or not a dict)"})
+            ck.count("names:not-observable")
+            continue
         for k, got in zip(keys, rep[name]):
             ck.count("names")
             if table.get(k, k) != got:
                 ck.mismatch({"names": name, "key": k}, {"impl": table.get(k, k), "model": got})
-    # direction of the maps (the property): the user-facing max-names go to the internal min-names
-    want = {"acq": {"UCB": "LCB", "UCBd": "LCBd"}, "mp": {"cl_max": "cl_min", "cl_min": "cl_max", "qUCB": "qLCB", "qUCBd": "qLCBd"}, "ff": {"min": "max"}}
-    for name, table in (("acq", cbo.MAP_acq_func), ("mp", cbo.MAP_multi_point_strategy), ("ff", cbo.MAP_filter_failures)):
         if dict(table) != want[name]:
-            ck.fail(f"C05|name-map|_cbo.MAP_{name}|", "a max<->min name map changed", {"names": name}, {"impl": dict(table), "want": want[name]})
+            ck.fail(f"C05|name-map|_cbo.{attr[name]}|", "a max<->min name map changed", {"names": name}, {"impl": dict(table), "want": want[name]})
     return rep
 
 
@@ -616,20 +809,22 @@ def _map(fn, items, workers):
 
 
 def _observe_jobs(cases, workers):
-    """run the real searches (base cases and their shifted / rescaled variants)"""
+    """run the real search histories (base cases and their shifted / rescaled variants)"""
     jobs = []
     for case in cases:
         jobs.append((case, None))
         if case.get("variants"):
-            jobs.append((_variant(case, "shift", case["seed"]), "shift"))
-            jobs.append((_variant(case, "scale", case["seed"] + 1), "scale"))
+            for which, seed in (("shift", case["seed"]), ("scale", case["seed"] + 1)):
+                v = _variant(case, which, seed)
+                if v is not None:
+                    jobs.append((v, which))
     obs_all = _map(_observe_safe, [j[0] for j in jobs], workers)
     return jobs, obs_all
 
 
 def _judge_jobs(ck, d, names, jobs, obs_all):
-    """ask the model about every observed run and judge"""
-    reqs, idx = [], []
+    """ask the model about every fit of every observed history and judge"""
+    reqs, spans = [], []
     for n, ((case, var), obs) in enumerate(zip(jobs, obs_all)):
         if "harness_error" in obs:
             raise HarnessError(obs["harness_error"])
@@ -637,25 +832,38 @@ def _judge_jobs(ck, d, names, jobs, obs_all):
         if obs["error"]:
             ck.case(case, nontrivial=True)
             ck.fail(f"C05|raises|CBO.search|{obs['error'].split(':')[0]},scaler={eff},surrogate={case['surrogate']}",
-                    "search / ask raised on a finite all-observed candidate set", case, {"error": obs["error"], "trace": obs.get("trace")})
+                    "search / tell / ask raised on a finite candidate set", case, {"error": obs["error"], "trace": obs.get("trace")})
+            spans.append(None)
             continue
-        reqs.append(_request(case, obs, eff))
-        idx.append(n)
+        nfit = min(len(obs["fits"]), len(obs["acqs"]), len(obs["proposals"]))
+        if obs.get("spy_error"):
+            ck.mismatch(case, {"what": "an environment observation (spy) failed: the model's inputs could not be observed", "errors": obs["spy_error"]})
+        if nfit == 0:
+            ck.case(case, nontrivial=True)
+            ck.mismatch(case, {"what": "no surrogate fit was observed (spies saw nothing)", "fits": len(obs["fits"]), "acqs": len(obs["acqs"])})
+            spans.append(None)
+            continue
+        spans.append((len(reqs), nfit))
+        for i in range(nfit):
+            reqs.append(_request(case, obs, eff, i))
     reps = d.ask_all(reqs)
     results = {}
-    for n, rep in zip(idx, reps):
-        case, var = jobs[n]
-        obs = obs_all[n]
+    for n, ((case, var), obs) in enumerate(zip(jobs, obs_all)):
+        if spans[n] is None:
+            continue
+        start, nfit = spans[n]
         eff = _eff_scaler(case, names)
-        ck.case(case, nontrivial=case["nobj"] >= 1 or case["sign"] != "neg")
-        results[n] = (_judge(ck, case, obs, rep, eff), eff)
+        ck.case(case, nontrivial=case["nobj"] >= 1 or case["sign"] != "neg" or bool(case.get("fail")) or bool(case.get("rounds")))
+        results[n] = (_judge(ck, case, obs, reps[start:start + nfit], eff), eff)
     # shift / scale clause: the proposal's score must be the same in the base run and in its variants
     n = 0
     while n < len(jobs):
         case, var = jobs[n]
-        if var is None and case.get("variants"):
+        if var is None:
             base = results.get(n)
-            for k, which in ((n + 1, "shift"), (n + 2, "scale")):
+            k = n + 1
+            while k < len(jobs) and jobs[k][1] is not None:
+                which = jobs[k][1]
                 r = results.get(k)
                 if base and r and base[0] is not None and r[0] is not None:
                     ck.count(f"variant:{which}")
@@ -665,7 +873,8 @@ def _judge_jobs(ck, d, names, jobs, obs_all):
                                 f"the proposal's score changes when the objectives are {'shifted by a constant vector' if which == 'shift' else 'multiplied by a positive factor'}",
                                 vcase, {"base_objectives": case["objs"], "variant": vcase["variant"], "score_base": base[0][0], "score_variant": r[0][0],
                                         "best": base[0][1]})
-            n += 3
+                k += 1
+            n = k
         else:
             n += 1
 
@@ -681,25 +890,30 @@ def run(ck):
     import time
 
     t0 = time.time()
-    ck.rule = ("CBO on a 1-D integer space 0..K-1 (K in 4..10), every candidate an initial point, kappa=0, sampling acquisition optimiser, "
-               "filter_duplicated=False; matrix surrogate {ET,RF,GP} (forests mostly configured to interpolate: bootstrap=False, max_features=1.0) x "
-               "objective_scaler {auto,identity,minmax,quantile-uniform} x strategy {Linear,Chebyshev,AugChebyshev,PBI,Quadratic} x weights {random,fixed incl. a zero} x "
-               "n_obj {scalar,1,2,3} x objectives {offsets+positive scales of a shuffled score: all-positive, all-negative, mixed sign; independent (pareto)} x "
-               "acq {UCB,UCBd} x seeds; half of the cases re-run with a constant vector added and with a positive factor; plus monotone 20-point problems "
-               "with default exploration, the documented objective forms through CBO._tell, and the name maps. distinct by canonical case; "
-               "non-trivial = multi-objective or objectives not all negative")
+    ck.rule = ("CBO on a 1-D integer space 0..K-1 (K in 4..10), kappa=0, sampling acquisition optimiser, filter_duplicated=False; histories with one fit "
+               "(every candidate an initial point), several fits (initial subset, then 1-3 tell rounds adding better observations) or failed evaluations "
+               "('F' for a subset incl. the would-be best, filter_failures min/mean); at the last fit every candidate is observed; matrix surrogate {ET,RF,GP} "
+               "(forests mostly configured to interpolate) x objective_scaler {auto,identity,minmax,quantile-uniform} x strategy {Linear,Chebyshev,AugChebyshev,PBI,"
+               "Quadratic} x weights {random,fixed incl. a zero} x n_obj {scalar,2,3} x objectives {offsets + positive scales 1e-9..1e9 of a shuffled score with "
+               "offsets up to 1e5 x the span (distinct doubles checked): all-positive, all-negative, mixed sign; independent (pareto)} x acq {UCB,UCBd} x seeds; "
+               "half of the cases re-run with a constant vector added and with a positive factor 1e-9..1e9; plus monotone problems with default exploration "
+               "(random initial points on 0..19; 8 fixed initial points far below the maximiser on 0..100/200 with the identity scaler x distance-based strategies x "
+               "{ET,GP}), the documented objective forms through CBO._tell, and the name maps. distinct by canonical case; non-trivial = multi-objective, or "
+               "objectives not all negative, or a multi-fit / failure history")
     ck.assumptions = [
         "surrogate (scikit-learn forests / GP) is not modelled: its predictions at the candidates are observed and passed to the model; the maximality oracle "
-        "is asserted when the observed surrogate honours its contract (its arg-min is a candidate of minimal fitted target), which interpolating forests always do",
+        "is asserted when the observed surrogate honours its contract (its arg-min is a candidate of minimal fitted target), which interpolating forests always do; "
+        "the ranking oracle on the fitted targets does not depend on the surrogate at all",
         "quantile-uniform (sklearn QuantileTransformer) is not computed by the model: the scaled history comes from the repo's cook_objective_scaler and is "
         "checked order-preserving into [0,1] (Lean orderPreservingB)",
         "random weights, sampled candidates and the utopia point are observed through spies on Space.rvs / clone / _gaussian_acquisition / MoScalarFunction.scalarize",
-        "floats: targets compared within 1e-9 relative to the largest target; Quadratic's SVD-based Q and the model's closed form agree within that tolerance",
+        "floats: targets compared within 1e-9 + 64*eps*(|offset|/range) relative to the largest target; the strict ranking of targets is asserted only where that noise "
+        "is below 1 % of the squared smallest relative score gap; Quadratic's SVD-based Q and the model's closed form agree within that tolerance",
     ]
     ck.trusted_extra = ["scikit-learn forests / GaussianProcessRegressor / QuantileTransformer / MinMaxScaler numerics", "numpy argmin tie-breaking = first index"]
     workers = min(16, os.cpu_count() or 1) if ck.thorough else 1
-    nbase = ck.pick(120, 2400)
-    nmono = ck.pick(9, 150)
+    nbase = ck.pick(110, 2400)
+    nmono = ck.pick(8, 160)
     corpus = _load_corpus()
     cases = [c for c in corpus if not c.get("mono")]
     cases += [_gen_case(ck.rng, t) for t in range(nbase)]
@@ -747,15 +961,16 @@ def replay(ck, case):
             jobs, obs_all = _observe_jobs([c], 1)
             _judge_jobs(ck, d, names, jobs, obs_all)
             obs = obs_all[0]
-            print("replay:", {"proposal": obs.get("proposal"), "objectives": case["objs"], "scores": case.get("scores"),
-                              "fitted_targets": obs.get("y_fit"), "told_order": obs.get("told_a"), "error": obs.get("error")})
+            print("replay:", {"proposals_after_each_fit": obs.get("proposals"), "told_order": obs.get("told_a"), "failed": case.get("fail"),
+                              "objectives": case["objs"], "scores": case.get("scores"),
+                              "fitted_targets_per_fit": [f["y"] for f in obs.get("fits", [])], "error": obs.get("error")})
             if base is not None:
                 b = dict(base)
                 b["variants"] = False
                 ob = _observe_safe(b)
-                print("replay (base objectives):", {"proposal": ob.get("proposal"), "objectives": base["objs"]})
-                if ob.get("proposal") is not None and obs.get("proposal") is not None and case.get("kind") == "aligned":
-                    if case["scores"][ob["proposal"]] != case["scores"][obs["proposal"]]:
+                print("replay (base objectives):", {"proposals": ob.get("proposals"), "objectives": base["objs"]})
+                if ob.get("proposals") and obs.get("proposals") and case.get("kind") == "aligned":
+                    if case["scores"][ob["proposals"][-1]] != case["scores"][obs["proposals"][-1]]:
                         ck.fail(_fp(("shift" if "shift" in case["variant"] else "scale") + "-changes-choice", case, _eff_scaler(case, names)),
                                 "the proposal's score changes under a shift / positive rescaling of the objectives", case,
-                                {"score_base": case["scores"][ob["proposal"]], "score_variant": case["scores"][obs["proposal"]]})
+                                {"score_base": case["scores"][ob["proposals"][-1]], "score_variant": case["scores"][obs["proposals"][-1]]})
